@@ -9,7 +9,9 @@ edits (it IS that generator, subclassed), plus:
     its label; script steps read theirs through the script file, which is an input;
   * phases that change SEVERAL things of one step at once -- all tracked variables of a step, or
     all source files it reads (same-size contents) -- and later phases that put a SUBSET of them
-    back to the values they had before (A -> B -> A on some, A -> B on the others).
+    back to the values they had before (A -> B -> A on some, A -> B on the others);
+  * edits of the SCRIPT of a script step that change the set of variables it amends (one dropped,
+    all dropped, one added, one replaced) while its declaration stays as it was.
 
 ``gen_subset_case`` is the small focused family of the same shape (1-3 steps, one multi-change,
 an optional unrelated phase, one subset revert, an optional last phase).
@@ -72,6 +74,9 @@ class _Gen(e3_gen._Gen):
         self.watch_safe = watch_safe
         self.multi = None        # ("env", {name: previous value}) | ("src", {path: previous content})
         self.fresh = 10          # counter of never-used variable values
+        # a separate stream for the edits added later, so that the histories of the base stream
+        # keep their shape
+        self.rng2 = random.Random(f"c01-gen-amend-env-{seed}")
 
     # units -----------------------------------------------------------------------------------
     def make_step(self, avail, *, script=None):
@@ -150,6 +155,38 @@ class _Gen(e3_gen._Gen):
         self.stats.edits["revert_subset_" + what] += 1
         return edits
 
+    def amend_env_change(self) -> bool:
+        """The script of a script step is edited so that it amends ANOTHER set of variables: one
+        is dropped, all are dropped, one is added, one is replaced (the step itself stays declared
+        as it was; only its script, a static input, changes)."""
+        rng = self.rng2
+        scripts = [u for u in e3_gen._all_steps(self.units) if u["k"] == "script"]
+        if not scripts:
+            return False
+        with_amend = [u for u in scripts if u.get("amend_env")]
+        u = rng.choice(with_amend) if with_amend and rng.random() < 0.8 else rng.choice(scripts)
+        cur = list(u.get("amend_env", []))
+        rest = [n for n in ENV_NAMES if n not in cur and n not in u.get("env", [])]
+        how = rng.choice(["drop-one", "drop-one", "drop-all", "add", "replace"])
+        if how in ("drop-one", "replace") and not cur or how == "drop-all" and not cur:
+            how = "add"
+        if how in ("add", "replace") and not rest:
+            how = "drop-one" if cur else None
+        if how is None:
+            return False
+        if how == "drop-one":
+            cur.remove(rng.choice(cur))
+        elif how == "drop-all":
+            cur = []
+        elif how == "add":
+            cur.append(rng.choice(rest))
+        else:
+            cur.remove(rng.choice(cur))
+            cur.append(rng.choice(rest))
+        u["amend_env"] = sorted(cur)
+        self.stats.edits["amend_env_" + how] += 1
+        return True
+
     def edit_phase(self) -> list:
         rng = self.rng
         x = rng.random()
@@ -164,6 +201,9 @@ class _Gen(e3_gen._Gen):
         if pre and rng.random() < 0.6:
             return pre
         edits = super().edit_phase()
+        if self.rng2.random() < 0.18 and self.amend_env_change() and \
+                not any(e["op"] == "program" for e in edits):
+            edits.append({"op": "program", "program": None})
         for e in edits:
             if e["op"] == "program":
                 e["program"] = render(self.units)
